@@ -15,9 +15,12 @@ def wrap(x):
     return x
 
 
-def mk(yaw, neg, frame):
+def mk(yaw, neg, frame, tilt=(0.0, 0.0)):
     from pyquaternion import Quaternion
     o = build.obj3d(dict(label="car", x=1.0, y=2.0, yaw=yaw, frame=frame))
+    if tilt[0] or tilt[1]:
+        # yaw about z, then a small pitch and roll: the yaw angle of the orientation is still `yaw`
+        o.state.orientation = Quaternion(axis=[0, 0, 1], radians=yaw) * Quaternion(axis=[0, 1, 0], radians=tilt[0]) * Quaternion(axis=[1, 0, 0], radians=tilt[1])
     if neg:
         q = o.state.orientation
         o.state.orientation = Quaternion(-q.w, -q.x, -q.y, -q.z)
@@ -28,10 +31,25 @@ def check(case):
     from perception_eval.evaluation.metrics.detection.tp_metrics import TPMetricsAph
     from perception_eval.evaluation.result.object_result import DynamicObjectWithPerceptionResult
     ye, yg = case["yaw_est"], case["yaw_gt"]
-    e, g = mk(ye, case["neg_est"], case["frame"]), mk(yg, case["neg_gt"], case["frame"])
+    e, g = mk(ye, case["neg_est"], case["frame"], case.get("tilt_est", (0.0, 0.0))), mk(yg, case["neg_gt"], case["frame"], case.get("tilt_gt", (0.0, 0.0)))
     tf = build.transforms(dict(x=3.0, y=-1.0, yaw=0.8))
     r = DynamicObjectWithPerceptionResult(e, g, transforms=tf)
     d = abs(wrap(ye - yg))
+    tilted = any(case.get(k, (0.0, 0.0)) != (0.0, 0.0) and tuple(case.get(k)) != (0.0, 0.0) for k in ("tilt_est", "tilt_gt"))
+    if tilted:
+        # with roll / pitch "the yaw angle of an object" needs a convention: the library's own (pyquaternion's yaw of the object's orientation in the
+        # ego frame) is used, so only the ego-frame rendering has an independent expected value; symmetry and agreement with the reported yaw error
+        # are checked in both renderings
+        if case["frame"] == "base_link":
+            d = abs(wrap(e.state.orientation.yaw_pitch_roll[0] - g.state.orientation.yaw_pitch_roll[0]))
+        else:
+            d = None
+    if d is None:
+        got = TPMetricsAph().get_value(r)
+        rev = TPMetricsAph().get_value(DynamicObjectWithPerceptionResult(g, e, transforms=tf))
+        if abs(rev - got) > 1e-6:
+            return f"APH weight is not symmetric: {got:.6f} vs {rev:.6f}"
+        return None
     want = 1.0 - d / math.pi
     got = TPMetricsAph().get_value(r)
     if abs(got - want) > 1e-6:
@@ -49,6 +67,12 @@ def search(item, seed):
     rnd = random.Random(seed * 17 + 1)
     yaws = [0.0, 0.5, -0.5, 1.0, -1.0, 2.0, -2.0, 3.0, -3.0, math.pi / 2, -math.pi / 2, 3.1, -3.1]
     cases = [dict(yaw_est=a, yaw_gt=b, neg_est=ne, neg_gt=ng, frame=f) for a in yaws for b in yaws for ne in (False, True) for ng in (False, True) for f in ("base_link", "map")]
+    # small roll / pitch on either object, or the same tilt on both (a common slope): the yaw angles, hence d, are unchanged
+    tilts = [(0.1, 0.1), (0.05, -0.1), (-0.08, 0.0), (0.0, 0.12)]
+    for c in list(cases[::7]):
+        t = rnd.choice(tilts)
+        k = rnd.random()
+        cases.append(dict(c, tilt_est=t) if k < 0.4 else dict(c, tilt_gt=t) if k < 0.7 else dict(c, tilt_est=t, tilt_gt=t))
     rnd.shuffle(cases)
     for case in cases[:600]:
         why = check(case)
